@@ -18,7 +18,7 @@ EXPLANATION = (
     "periodic call and ping() while CONNECTED. All timing statements (every k seconds, within k seconds, never when "
     "answered in time) are NOT decided. Not a finding on purpose: the routine overwrites the deadline handle without "
     "cancelling the previous one - period and deadline are the same k, so the orphaned deadline is the one that must fire. Q0: the premises of the framing lemma (every rule of C03) hold, a necessary condition of anything said about inbound packets. "
-    " Q7 - no reset()/delay() on the periodic call or the deadline in any context, and the periodic call is stopped by the loss only. "
+    " Q7 - no reset()/delay() on the periodic call or the deadline in any context, and the periodic call is stopped by the loss only. Q1 also: the keepalive the CONNECT request holds when connect() hands it on is connect()'s argument alone. "
     " Q2 also: the periodic call (found from the LoopingCall's target) writes a PINGREQ on every completing path while CONNECTED, and the expired deadline closes with abortConnection, not an orderly close.")
 ASSUMPTIONS = ["LoopingCall calls its target every `period` seconds starting immediately (Twisted contract)"]
 
